@@ -220,6 +220,39 @@ def clause5(P, res):
                          "the others disagree on which stripe holds a key's marker", where=e.loc)
 
 
+def clause6(P, res):
+    rid = "C15-6"
+    res.rule(rid, "a miss is re-validated before a new load starts: in the miss paths (load_value_blocking / load_value_awaiting) the caller looks the key up in its shard map "
+                  "again under the pending-load stripe guard before it inserts a new marker — the first store lookup was made before the stripe lock, and a load that "
+                  "completes in between (value inserted, marker removed) otherwise makes this caller a second leader: the loader runs twice for one miss")
+    for want in (LEADER_BODIES[0], LEADER_BODIES[2]):
+        b0 = P.body(want)
+        if b0 is None:
+            res.unclassified(rid, want, "miss path not found (renamed?)")
+            continue
+        b = P.async_inner(b0) or b0
+        ins = [e for e in b.calls() if is_pending_map_call(e) and e.method == "insert"]
+        if not ins:
+            res.unclassified(rid, want, "miss path inserts no pending-load marker", where=f"{b.file}:{b.line}")
+            continue
+        acqs = acquisitions(b, "pending_loads[]")
+        ok = False
+        for acq, edges in acqs:
+            held, _, _ = mir.guard_held_positions(b, acq, edges)
+            if ins[0].pos not in held:
+                continue
+            looks = [e for e in b.calls() if cl.is_map_call(e) and e.method in cl.MAP_LOOKUPS | {"contains_key"} and e.pos in held and b.dominated_by_any(ins[0].pos, {e.pos})]
+            helper = [e for e in b.calls() if e.pos in held and e.method in ("peek", "fetch", "get", "raw_get", "contains_key") and (e.callee or "").startswith("fibre_cache::")
+                      and b.dominated_by_any(ins[0].pos, {e.pos})]
+            if looks or helper:
+                ok = True
+        if ok:
+            res.holds(rid, want, "store re-checked under the stripe guard before the marker is inserted", where=ins[0].loc)
+        else:
+            res.violated(rid, want, f"the marker is inserted at {ins[0].loc} without looking the key up in the store again under the stripe guard: a caller that missed the "
+                         "store just before a load completed becomes a second leader and the loader runs twice", where=ins[0].loc)
+
+
 def run(P, ctx):
     res = Result("C15")
     res.extra["explanation"] = "Critical-section, ordering and wait/complete shapes of the cache loader's single-flight protocol."
@@ -227,6 +260,7 @@ def run(P, ctx):
     clause3(P, res)
     clause4(P, res)
     clause5(P, res)
+    clause6(P, res)
     res.notes.append("DESIGN C15-2 (spawn after unlocking) dropped: trigger_background_load spawns while holding the stripe guard and that is not a deadlock "
                      "(spawn does not block on the marker); it is not a necessary condition of the property.")
     return res
